@@ -421,6 +421,72 @@ for i in range(4):
     acc.append(f(i, i + 1))
 print(acc[0][0], acc[0][1], acc[1][0], acc[2][1], acc[3][0], acc[3][1])
 '''))
+    # calls that reach a Python function THROUGH a Go builtin (map/filter/sorted/max/min key functions): the argument tuple the
+    # builtin builds must be bound exactly like a direct call, and a retained *a must keep its own values
+    out.append(('viabuiltin1', 'call-through-builtin', '''
+def keep(*a):
+    return a
+def keep1(x, *a):
+    return (x, a)
+def show(t):
+    print(len(t))
+    for e in t:
+        print(e)
+r = list(map(keep, [1, 2, 3]))
+for t in r:
+    show(t)
+r = list(map(keep, [1, 2], [30, 40]))
+for t in r:
+    show(t)
+r = list(map(keep1, "abc", [10, 20, 30], [7, 8, 9]))
+for t in r:
+    print(t[0])
+    show(t[1])
+r = list(map(keep, []))
+print(len(r))
+kept = []
+def key(*a, **k):
+    kept.append((a, k))
+    return a[0]
+print(sorted([3, 1, 2], key=key)[0])
+print(max([3, 1, 2], key=key))
+print(min([3, 1, 2], key=key))
+for a, k in kept:
+    print(len(a), a[0], len(k))
+f = list(filter(keep, [0, 1, 2]))
+print(len(f))
+def gen_keep(*a):
+    yield a
+gs = list(map(gen_keep, [5, 6]))
+for g in gs:
+    for t in g:
+        show(t)
+'''))
+    # keyword / positional duplicates handed to Go builtins that take keywords: TypeError, never silent dropping
+    out.append(('builtinkwdup', 'builtin-keyword-duplicate', '''
+def t(f):
+    try:
+        f()
+        print("accepted")
+    except TypeError:
+        print("TypeError")
+t(lambda: int("12", x="99"))
+t(lambda: complex(1, real=5))
+t(lambda: complex(1, 2, imag=5))
+t(lambda: str(5, object=6))
+t(lambda: sorted([1], iterable=[2]))
+t(lambda: enumerate([1], iterable=[2]))
+t(lambda: enumerate([1], 0, start=2))
+t(lambda: round(1.5, number=2))
+t(lambda: round(1.5, 1, ndigits=2))
+t(lambda: int("12", 10, base=10))
+t(lambda: print(1, sep="", sep2=""))
+t(lambda: sorted([1], key=None, key2=None))
+t(lambda: max([1], key=None, keyx=1))
+t(lambda: int(x="12", y=1))
+t(lambda: len(obj=[1]))
+t(lambda: abs(x=1))
+'''))
     return [({'id': i, 'src': s.lstrip('\n')}, feat) for i, feat, s in out]
 
 
